@@ -63,6 +63,10 @@ def run(chk, replay=None):
     # the same graph object re-configured (set_delay) between two episodes: the second episode is the function of the graph AS IT IS NOW (declared delays ->
     # phases -> schedule) and of the initial state - not of what was evaluated or run before
     variants["set_delay_between"] = dict(drive="reset_step", episodes=2, between="auto")
+    # delay tables whose starting offset is a function of the key the runtime hands to DelayDistribution.reset() (like rex's own stochastic distributions):
+    # the delay streams are then a function of the initial graph state's rng only - two episodes on one graph object and a run()-driven fresh graph must agree
+    variants["seeded_two"] = dict(drive="reset_step", episodes=2, cfg_over=dict(seeded_delays=True))
+    variants["seeded_run"] = dict(drive="run", cfg_over=dict(seeded_delays=True))
     starve_owners = ["n0", "n1", "n0>n1", "n1>n0"] if not quick else ["n0", "n0>n1"]
     for o in starve_owners: variants[f"starve:{o}"] = dict(drive="reset_step", perturb=dict(kind="starve", owner=o, ms=3))
     count = [0]
@@ -82,6 +86,9 @@ def run(chk, replay=None):
             if "error" in rr and al.unsupported_hang(chk, cfg, rr): continue
             if vn == "set_delay_between" and "error" not in rr:
                 c03.second_episode(chk, G, rr, "C04"); continue
+            if vn.startswith("seeded_"):
+                if "error" in rr: chk.feat("seeded-delays:run-error"); continue
+                continue
             if "error" in rr:
                 chk.case((repr(cfg), vn), ["impl-error"], None)
                 chk.violation(f"async-run-fails:{rr['error'].split(':')[0].split(' ')[0]}", f"threaded run failed ({vn}): {rr['error'][:300]}", dict(cfg=cfg, variant=vn))
@@ -94,6 +101,18 @@ def run(chk, replay=None):
             if len(e2) > 1 and "error" not in e2[1]["record"] and "error" not in e2[0]["record"]:
                 d = compare_runs(cfg, al.canon_neg(e2[0]), al.canon_neg(e2[1]))
                 if d: chk.violation("episode-depends-on-previous-episode", f"second episode on the same graph from the same initial state differs from the first: {d}", dict(cfg=cfg))
+        sd = {vn: G["runs"][vn]["episodes"] for vn in ("seeded_two", "seeded_run") if vn in G["runs"] and "error" not in G["runs"][vn]}
+        sd = {vn: [al.canon_neg(e) for e in es] for vn, es in sd.items() if all("error" not in e["record"] for e in es)}
+        if "seeded_two" in sd and len(sd["seeded_two"]) > 1:
+            chk.traces_impl += 2; chk.feat("seeded-delays:two-episodes-compared")
+            d = compare_runs(cfg, sd["seeded_two"][0], sd["seeded_two"][1])
+            if d: chk.violation("episode-depends-on-previous-episode", f"rng-seeded delay streams: the second episode on the same graph object from the same initial graph state "
+                                f"differs from the first: {d}", dict(cfg=cfg, variant=variants["seeded_two"]))
+            if "seeded_run" in sd:
+                chk.traces_impl += 1
+                d = compare_runs(cfg, sd["seeded_two"][0], sd["seeded_run"][0])
+                if d: chk.violation("schedule-dependent-record", f"rng-seeded delay streams: a reset()/step() episode and a run() episode of a fresh graph from the same initial "
+                                    f"graph state differ: {d}", dict(cfg=cfg, variants=dict(seeded_two=variants["seeded_two"], seeded_run=variants["seeded_run"])))
         names = sorted(eps)
         if not names: continue
         base = names[0]
